@@ -58,7 +58,7 @@ def run(ctx):
                'the cube format requires the parameter table in cube order (convolve_model_dir refuses otherwise)',
                'fits are compared with the numeric reference (C01/C02) per variant, which is what "agree" means up to the float32 memmap bound')
     ctx.require_events('file:checked', 'twin:compared', 'fit:checked')     # (the sort_to_match probe is an extra observation point, not a required route)
-    ctx.require_regimes('gz', 'subdir', 'mixed-order', 'cube:desc', 'cube:asc', 'f32', 'n_ap>1', 'n_ap=1', 'memmap:on', 'memmap:off', 'filters>1', 'filters-used-before', 'names:long', 'cube-unit:Jy', 'apertures:not-in-AU')
+    ctx.require_regimes('gz', 'subdir', 'mixed-order', 'cube:desc', 'cube:asc', 'f32', 'n_ap>1', 'n_ap=1', 'memmap:on', 'memmap:off', 'filters>1', 'filters-used-before', 'names:long', 'cube-unit:Jy', 'apertures:not-in-AU', 'fitters:several-alive')
     n_pkg = 7 if ctx.quick else 120
     for ip in range(n_pkg):
         n_m = int(rng.integers(1, 9))
@@ -234,13 +234,23 @@ def run(ctx):
                 theta = np.array([float(gen.loguniform(rng, truth.apertures[0] * 1.01, truth.apertures[-1])) for _ in range(nfil)]) / (dmin * 1000)
             m0 = int(rng.integers(n_m))
             a0 = float(rng.uniform(0, 8))
+            # all fitters are built first and stay alive while each is used (plus one more memory-mapped fitter on the cube package
+            # with the filters in reverse order, built last): "fits made from either, memory-mapped or not, agree" whatever else is alive
+            built = []
             for style, d in (('v1', d1), ('v2', d2)):
                 for mm in (True, False):
                     try:
-                        ft = gen.make_fitter([f.name for f in filters], theta, d, law, (0.0, 30.0), dr, use_memmap=mm)
+                        built.append((style, d, mm, gen.make_fitter([f.name for f in filters], theta, d, law, (0.0, 30.0), dr, use_memmap=mm)))
                     except Exception as exc:
                         ctx.violation('fitter-raised:' + style, 'Fitter() on the convolved package raised: %r' % (exc,), dict(wit0, style=style))
-                        continue
+            try:
+                extra_ft = gen.make_fitter([f.name for f in filters][::-1], theta[::-1], d2, law, (0.0, 30.0), dr, use_memmap=True)
+                if nfil > 1:
+                    ctx.regime('fitters:several-alive')
+            except Exception as exc:
+                extra_ft = None
+            for style, d, mm, ft in built:
+                if True:
                     ctx.regime('memmap:on' if mm else 'memmap:off')
                     if mode == '2d':
                         logm, logd = np.log10(conv[:, 0, :]), None
